@@ -87,6 +87,13 @@ def judge_scalar(op, a, b, got):
     except ra.Unspecified as u:
         raise Skip('unspecified-operand')
     if kind == 'err':
+        if x == '#VALUE!' and op == '/' and is_err(got) and str(got) == '#DIV/0!':
+            try:
+                rk, rv = ra.classify(b)
+                if rk != 'badtext' and rv == 0:
+                    raise Skip('text-over-zero')        # non-numeric text divided by zero: both rules of the statement apply, which one wins is not said
+            except ra.Unspecified:
+                pass
         if not is_err(got) or str(got) != x:
             return 'expected %s' % x
         return None
